@@ -109,6 +109,39 @@ Section TP.
     destruct (Bool.eqb _ ccw) eqn:E; [|discriminate]. apply eqb_prop in E. exact E.
   Qed.
 
+  (* with distinct indices in the input, every triangle has three distinct indices *)
+  Lemma remove_nth_split {A} i (l : list A) d : i < length l -> l = firstn i l ++ nth i l d :: skipn (S i) l.
+  Proof.
+    revert i. induction l as [|a l IH]; intros i Hi; [cbn in Hi; lia|]. destruct i as [|i]; [reflexivity|].
+    cbn [firstn nth skipn app]. f_equal. apply IH. cbn in Hi. lia.
+  Qed.
+  Lemma remove_nth_map {A B} (f : A -> B) i (l : list A) : map f (remove_nth i l) = remove_nth i (map f l).
+  Proof. unfold remove_nth. rewrite map_app, firstn_map, skipn_map. reflexivity. Qed.
+  Lemma remove_nth_nodup {A} i (l : list A) : NoDup l -> NoDup (remove_nth i l).
+  Proof.
+    intros Hl. destruct (Nat.lt_ge_cases i (length l)) as [Hi|Hi].
+    - destruct l as [|d l']; [cbn in Hi; lia|]. rewrite (remove_nth_split i (d :: l') d Hi) in Hl. apply NoDup_remove_1 in Hl. exact Hl.
+    - unfold remove_nth. rewrite firstn_all2 by lia. rewrite skipn_all2 by lia. rewrite app_nil_r. exact Hl.
+  Qed.
+  Definition distinct3 (t : tri3) : Prop := let '(a, b, c) := t in fst a <> fst b /\ fst b <> fst c /\ fst c <> fst a.
+  Lemma nthv_fst (l : list vtx) i : fst (nthv l i) = nth i (map fst l) 0%Z.
+  Proof. unfold nthv. change 0%Z with (fst (@dv T _)). apply eq_sym, map_nth. Qed.
+  Lemma clipv_distinct ccw fuel poly : NoDup (map fst poly) -> Forall distinct3 (fst (clipv fuel ccw poly [])).
+  Proof.
+    intros Hnd.
+    apply (clipv_invariant ccw (fun acc p => Forall distinct3 acc /\ NoDup (map fst p)) ) with (fuel := fuel) (poly := poly) (acc := []); [|split; [constructor|exact Hnd]].
+    intros acc p i Hlen Hf [HF Hp]. apply find_ear_some in Hf. destruct Hf as [Hi _]. split.
+    - apply Forall_app. split; [exact HF|]. constructor; [|constructor]. unfold distinct3, ear_at. rewrite !nthv_fst.
+      assert (Hl : length (map fst p) = length p) by apply map_length.
+      pose proof (prev_lt (length p) i Hi) as Hpl. pose proof (next_lt (length p) i Hi) as Hnl.
+      assert (Hpi : prev_i (length p) i <> i) by (unfold prev_i; destruct (Nat.eqb_spec i 0); lia).
+      assert (Hin : i <> next_i (length p) i) by (unfold next_i; destruct (Nat.eqb_spec i (length p - 1)); lia).
+      assert (Hnp : next_i (length p) i <> prev_i (length p) i) by (unfold next_i, prev_i; destruct (Nat.eqb_spec i (length p - 1)), (Nat.eqb_spec i 0); lia).
+      rewrite (NoDup_nth (map fst p) 0%Z) in Hp.
+      repeat split; intros E; apply Hp in E; rewrite ?Hl; lia.
+    - rewrite remove_nth_map. apply remove_nth_nodup. exact Hp.
+  Qed.
+
   (* cyclic sums: for any commutative monoid M and edge weight g,
        csum g poly + sum over triangles of g(p, n)  =  csum g rest + sum over triangles of (g(p, x) + g(x, n)) *)
   Section Sums.
